@@ -6,6 +6,7 @@ import CruxVerif.Lemmas.RtTask
 import CruxVerif.Lemmas.K2Evict
 import CruxVerif.Lemmas.EvictComplete
 import CruxVerif.Lemmas.FreshUse
+import CruxVerif.Lemmas.RRun
 namespace Props.C07
 open M.Rt
 
@@ -40,6 +41,32 @@ theorem evict_sound_runTask (cid tid : Nat) (w w' : World) (h : runTask cid tid 
       (hostFreeB t.fut = true → inRangeB w.leaves.length w.metas.length t.fut = true → deadOnlyB b = true) := by
   obtain ⟨t, b, _, hg, _, hd⟩ := evicted_task_is_dead _ loopFuel cid tid w w' h
   exact ⟨t, b, hg, hd⟩
+
+/-- SOUNDNESS OF EVICTION OVER WHOLE RUNS — the well-formedness hypothesis of `evict_sound` discharged: for ANY command (any
+    nesting of combinators, any task bodies) held directly by a test, after EVERY history of resolutions, drops, aborts and
+    polls, whenever `run_task` discards a host-free task of any command as `Cancelled`, the task was suspended only at requests
+    whose channel has already closed — no request, stream, join handle or self-wake it waits on could still wake it.
+    Global invariant `WFw` (Lemmas/RFrame, RPoll, RExec, RRun ≈ 900 lines): every leaf id and join-handle id mentioned by any
+    stored or queued task of any command exists — carried through one poll of ANY block (also blocks hosting commands) by a
+    single `grind` call over `pollBlock`, then through the executor, the nesting knot, command building and the shell. -/
+theorem evict_sound_reachable (c : Cmd) (canon : Bool) (acts : List M.Hosts.Action) (os : List M.Hosts.Obs)
+    (d : M.Hosts.Direct) (hrun : M.Hosts.runDirect c canon acts = some (os, d)) (cid tid : Nat) (w' : World)
+    (h : runTask cid tid d.w = some (.cancelled, w')) :
+    ∃ t b, (d.w.cmd cid).tasks.get? tid = some t ∧ (hostFreeB t.fut = true → deadOnlyB b = true) := by
+  obtain ⟨t, b, _, hg, _, hd⟩ := evicted_task_is_dead _ loopFuel cid tid d.w w' h
+  refine ⟨t, b, hg, fun hf => hd hf ?_⟩
+  exact (M.Hosts.runDirect_wf c canon acts os d hrun).t cid t (M.Slab.mem_values_of_get _ _ _ hg)
+
+/-- the invariant itself: in every reachable world every stored task of every command mentions only leaves and join handles
+    that exist -/
+theorem stored_blocks_well_formed (c : Cmd) (canon : Bool) (acts : List M.Hosts.Action) (os : List M.Hosts.Obs)
+    (d : M.Hosts.Direct) (hrun : M.Hosts.runDirect c canon acts = some (os, d)) (cid : Nat) (t : Task)
+    (ht : t ∈ (d.w.cmd cid).tasks.values ∨ t ∈ (d.w.cmd cid).spawnQ) :
+    inRangeB d.w.leaves.length d.w.metas.length t.fut = true := by
+  have w := M.Hosts.runDirect_wf c canon acts os d hrun
+  rcases ht with ht | ht
+  · exact w.t cid t ht
+  · exact w.s cid t ht
 
 /-- one poll of a host-free block leaves the polling waker registered at every point the block is suspended at
     (or the point is a closed request), and touches other registrations only monotonically -/
